@@ -697,15 +697,29 @@ func (hfh *HttpForwarderHandlerV2) DispatchEvent(ctx context.Context, e *gostats
 func (hfh *HttpForwarderHandlerV2) dispatchEvent(ctx context.Context, e *gostatsd.Event) {
 	postId := atomic.AddUint64(&hfh.postId, 1) - 1
 
+	// proto3 strings must be valid UTF-8, otherwise Marshal fails and the event is lost; the parser
+	// passes other bytes on, so they are replaced by U+FFFD here as they are for metrics.
+	fix := func(s string) string { return strings.ToValidUTF8(s, "\uFFFD") }
+	tags := e.Tags
+	for i := range tags {
+		if !utf8.ValidString(tags[i]) {
+			tags = make(gostatsd.Tags, len(e.Tags))
+			for j, tag := range e.Tags {
+				tags[j] = fix(tag)
+			}
+			break
+		}
+	}
+
 	message := &pb.EventV2{
-		Title:          e.Title,
-		Text:           e.Text,
+		Title:          fix(e.Title),
+		Text:           fix(e.Text),
 		DateHappened:   e.DateHappened,
-		Hostname:       string(e.Source),
-		AggregationKey: e.AggregationKey,
-		SourceTypeName: e.SourceTypeName,
-		Tags:           e.Tags,
-		SourceIP:       string(e.Source),
+		Hostname:       fix(string(e.Source)),
+		AggregationKey: fix(e.AggregationKey),
+		SourceTypeName: fix(e.SourceTypeName),
+		Tags:           tags,
+		SourceIP:       fix(string(e.Source)),
 	}
 
 	switch e.Priority {
